@@ -22,14 +22,15 @@ def group_stores(stmts):
 def first_match_loop(func, loop: ast.For):
   """Check the `for pred in preds: if pred(item): store; break  else: remainder` idiom.
 
-  Returns (ok, message, info). ok means: in every iteration of the *enclosing*
+  Returns (ok, message, info). ok is None when the idiom was not recognised at all (inconclusive), False when it was
+  recognised and one of its obligations is positively broken. ok means: in every iteration of the *enclosing*
   item loop exactly one of {a single group store followed by break, the else
   clause} happens.
   """
   c = cfg_of(func)
   heads = c.nodes_of_stmt(loop)
   if not heads:
-    return False, 'loop not in CFG', {}
+    return None, 'loop not in CFG', {}
   head = heads[0]
   lvars0 = astu.names_stored(loop.target)
 
@@ -43,15 +44,17 @@ def first_match_loop(func, loop: ast.For):
   for s in stores:
     snodes += c.nodes_for(s)
   if not snodes:
-    return False, 'no group store inside the predicate loop', {}
+    return None, 'no group store inside the predicate loop', {}
   # the store is guarded by a test that calls the loop variable (the predicate)
   lvars = astu.names_stored(loop.target)
   tests = [n for n in c.nodes if n.kind == 'if' and n in c.loop_body_nodes(loop) | set() and
            any(isinstance(x, ast.Call) and isinstance(x.func, ast.Name) and x.func.id in lvars for x in ast.walk(n.ast))]
   if not tests:
-    return False, 'group store is not guarded by a call of the loop predicate', {}
+    return None, 'group store is not guarded by a call of the loop predicate', {}
+  from . import evid
+  is_pred = lambda e: isinstance(e, ast.Call) and isinstance(e.func, ast.Name) and e.func.id in lvars
   for sn in snodes:
-    if not any(c.edge_guarded(sn, t, 'T') for t in tests):
+    if evid.guarded(c, sn, is_pred) != 'yes':
       return False, 'group store at L%d is not under the predicate test' % sn.line, {}
   # after a store the loop must be left (break): head not reachable from the store
   for sn in snodes:
@@ -67,17 +70,17 @@ def first_match_loop(func, loop: ast.For):
     if any(x in r for x in snodes):
       return False, 'two group stores on one path of the predicate loop', {}
   # when the predicate holds, a store must happen before leaving the loop
-  for t in tests:
-    after = [m for m, lab in c.succ[t] if lab == 'T']
-    loop_nodes = c.loop_body_nodes(loop)
-    for a in after:
-      if a in snodes:
-        continue
-      # any path from the true edge that leaves the loop body without a store?
-      reach = c.reach([a], avoid=snodes, include_src=True)
-      leaves = [x for x in reach if x not in loop_nodes and x is not head and x.kind != 'raise']
-      if leaves:
-        return False, 'a matching item can leave the predicate loop without being stored (L%d)' % t.line, {}
+  loop_nodes = c.loop_body_nodes(loop)
+  for t, a, _lab in evid.est_edges(c, is_pred):
+    if t not in loop_nodes:
+      continue
+    if a in snodes:
+      continue
+    # any path from the predicate-holds edge that leaves the loop body without a store?
+    reach = c.reach([a], avoid=snodes, include_src=True)
+    leaves = [x for x in reach if x not in loop_nodes and x is not head and x.kind != 'raise']
+    if leaves or head in reach:
+      return False, 'a matching item can leave the predicate loop (or go on to the next predicate) without being stored (L%d)' % t.line, {}
   # no other path puts an item into one of the groups without asking the predicates (e.g. a cached shortcut)
   roots = set()
   for s in stores + group_stores(loop.orelse):
@@ -104,7 +107,7 @@ def first_match_loop(func, loop: ast.For):
       if isinstance(r, ast.Name) and r.id in roots - lvars0:
         return False, ('`%s` (L%d) puts an item into a group without evaluating the predicates for it: the group of an item must be decided by the first matching '
                        'predicate for *that* item (a per-type / cached shortcut is wrong for path- or tag-dependent filters)' % (astu.short(s, 70), s.lineno)), {}
-  info = {'stores': [astu.short(s) for s in stores], 'else': 'none'}
+  info = {'stores': [astu.short(s) for s in stores], 'else': 'drop'}
   if loop.orelse:
     es = group_stores(loop.orelse)
     rs = [n for st in loop.orelse for n in astu.walk_shallow(st) if isinstance(n, ast.Raise)]
